@@ -23,6 +23,9 @@ import struct
 from vlib.progen import Chooser, HypChooser, RandChooser  # noqa: F401  (re-exported)
 
 FLOATS = ('f32', 'f64')
+# 'x25': a 26-bit signed fixed-point format with one fractional bit (fp.FixedContext(True, -1, 26)); its members need up to 25
+# significand bits, one more than binary32 holds, so the only machine type containing it is double.  Used for parameters only.
+FLOATLIKE = ('f32', 'f64', 'x25')
 INTS = ('u8', 's8', 'u16', 's16', 'u32', 's32', 'u64', 's64')          # ladder order
 RANGE = {
     'u8': (0, 2**8 - 1), 's8': (-2**7, 2**7 - 1), 'u16': (0, 2**16 - 1), 's16': (-2**15, 2**15 - 1),
@@ -44,6 +47,10 @@ def fits(a: str, b: str) -> bool:
     """Is every value of kind `a` a value of kind `b` (the backend's ladder containment)?"""
     if a == b:
         return True
+    if a == 'x25':
+        return b == 'f64'
+    if b == 'x25':
+        return False
     if a in FLOATS:
         return a == 'f32' and b == 'f64'
     if b in FLOATS:
@@ -478,7 +485,7 @@ class Gen:
         fit a machine integer (REAL) / stay far inside int64 (INTEGER)."""
         ch = self.ch
         vs = self.scalars(fn, lambda k: self.usable_in(k, C))
-        fl = self.scalars(fn, lambda k: k in FLOATS) if C.kind == 'real' else []
+        fl = self.scalars(fn, lambda k: k in FLOATLIKE) if C.kind == 'real' else []
 
         def leaf():
             if vs and ch.bool(0.8):
@@ -503,7 +510,7 @@ class Gen:
             self.features.add('real-float-op')
             return f'{ch.choice(["min", "max"])}({a}, {b})', join(fn.env[a].kind, fn.env[b].kind)
         ra = self._num_exact(fn, C, d - 1) if ch.bool(0.4) else leaf()
-        if ra is None or ra[1] in FLOATS:
+        if ra is None or ra[1] in FLOATLIKE:
             return None
         a, ka = ra
         la, ha = RANGE[ka]
@@ -514,7 +521,7 @@ class Gen:
             r = int_kind_of_range(0, max(abs(la), abs(ha)))
             return (f'abs({a})', r) if self._exact_ok(r, C) else None
         rb = self._num_exact(fn, C, d - 1) if ch.bool(0.3) else leaf()
-        if rb is None or rb[1] in FLOATS:
+        if rb is None or rb[1] in FLOATLIKE:
             return None
         b, kb = rb
         lb, hb = RANGE[kb]
@@ -1530,10 +1537,10 @@ class Gen:
         for i in range(n):
             r = ch.int(0, 99)
             if r < 50 or (self.p_lists == 0.0 and r < 90):
-                k = ch.weighted([(5, 'f32'), (7, 'f64'), (1, 's8'), (2, 's16'), (2, 's32'), (1, 'u8'), (1, 'u16'), (1, 's64'), (1, 'u32')])
+                k = ch.weighted([(5, 'f32'), (7, 'f64'), (1, 's8'), (2, 's16'), (2, 's32'), (1, 'u8'), (1, 'u16'), (1, 's64'), (1, 'u32'), (3, 'x25')])
                 params.append((f'a{i}', Sc(k)))
             elif r < 88:
-                k = ch.choice(['f32', 'f64', 'f64'])
+                k = ch.choice(['f32', 'f64', 'f64', 'f32', 'f64', 'f64', 'x25'])
                 pinned = ch.bool(0.5)
                 lb = ch.int(1, 4) if pinned or ch.bool(0.8) else 0
                 params.append((f'a{i}', Li(k, lb, pinned)))
@@ -1594,6 +1601,9 @@ F64_SPECIAL = F32_SPECIAL + [1e300, -1e300, 1e-320, 5e-324, 1.7976931348623157e3
                              16777217.0, 1e-46, 2147483647.5, 1.8446744073709552e19, -9223372036854775808.0, 4294967296.5, 1e22]
 
 
+X25_POOL = [0.5, -0.5, 16777215.5, -16777216.0, 8388608.5, 3.0, 12345678.5, -8388609.5, 0.0, 1.5, 100.0, 16777214.5, -16777215.5, 4194304.5]
+
+
 def int_pool(kind):
     lo, hi = RANGE[kind]
     base = [0, 1, 2, 3, 5, 7, 10, 100, hi, hi - 1, hi // 2, hi // 3]
@@ -1607,6 +1617,8 @@ def gen_scalar(ch, kind, special_p):
         return ch.choice(F32_SPECIAL) if ch.bool(special_p) else ch.choice(F32_ORD)
     if kind == 'f64':
         return ch.choice(F64_SPECIAL) if ch.bool(special_p) else ch.choice(F64_ORD)
+    if kind == 'x25':
+        return ch.choice(X25_POOL)
     return ch.choice(int_pool(kind))
 
 
